@@ -102,6 +102,7 @@ def check_pool(pid, tier, seed, t0):
         "exhaustive": False,
         "model_checking_runs": tl,
         "model_conformance": res.get("conformance", {}),
+        "unbounded_lemma_apalache": res.get("lemma", {}),
         "model_drift_samples": res.get("drift", [])[:2],
         "schedules_by_driver": res["drivers"],
         "trace_records": res["events"],
